@@ -71,7 +71,9 @@ RULE = ("arrangements = multisets of n protoclusters, each a core of 1..k grid c
         "inside, and before/after/across the origin; and a same-extent family: a protocluster with "
         "exactly the coordinates of a hybrid/interleaved candidate (or of one of its members) that "
         "it is not part of, with a fourth protocluster absent / inside / apart / touching / over "
-        "either end / around everything; every arrangement "
+        "either end / around everything; and a bridge family of 5 protoclusters: two separate "
+        "pairs (hybrid or interleaved) and a fifth protocluster whose neighbourhood or core reaches "
+        "into both, one, or only touches them; every arrangement "
         "is supplied in one order per distinct sorted protocluster list that add_protocluster can "
         "build from it (ties between identical extents) "
         "and in every order when the ordering is inconsistent (whole-record + origin-spanning extent); non-trivial = >= 2 protoclusters related by at least one of the three "
@@ -284,6 +286,39 @@ def _same_extent_cases(tier: str) -> Iterable[Dict[str, Any]]:
                             yield {"L": cells * CELL, "circ": circular, "protos": protos, "share": share}
 
 
+def _bridge_cases(tier: str) -> Iterable[Dict[str, Any]]:
+    """Two pairs and a bridge: A, B (cells 0..2) and C, D (cells 6..8), each pair with overlapping
+    cores - a chemical hybrid when it shares a defining gene, an interleaved candidate otherwise -
+    and apart from the other pair, plus a fifth protocluster S in between whose neighbourhood
+    (or, in one variant, whose core) reaches into both pairs, into one of them only, touches them
+    without a shared base, starts with the first pair or contains both.  The neighbouring
+    (interleaved) group has to be the transitive union through S.  Lines, and rings with the
+    first pair, the bridge or the second pair across the origin."""
+    quick = tier == "quick"
+    cells = 12
+    bridges = [((4, 5), (2, 7)),       # core, extent (cells, relative): reaches into both pairs
+               ((4, 5), (2, 6)),       # reaches the first pair, touches the second
+               ((4, 5), (3, 7)),       # touches the first, reaches the second
+               ((3, 4), (0, 7)),       # starts with the first pair, reaches the second
+               ((4, 5), (0, 9)),       # contains both pairs
+               ((5, 6), (1, 8)),       # reaches the middle of both
+               ((2, 7), (2, 7)),       # its CORE reaches into the cores of both pairs
+               ((3, 6), (2, 7))]       # core between the pairs, touching both core spans
+    for circular in (False, True):
+        positions = (0, 1, 3) if not circular else (tuple(range(cells)) if not quick else (0, 2, 4, 5, 7, 9, 10, 11))
+        for start in positions:
+            def arc(lo: int, hi: int) -> Optional[List[int]]:
+                return _cell_arc(start + lo, start + hi, cells, circular)
+            pairs = [[arc(0, 2), arc(0, 3)], [arc(1, 3), arc(1, 3)],
+                     [arc(6, 8), arc(6, 8)], [arc(7, 9), arc(6, 9)]]
+            for core, extent in bridges:
+                protos = [list(p) for p in pairs] + [[arc(*core), arc(*extent)]]
+                if any(part is None for proto in protos for part in proto):
+                    continue
+                for share in ([], [[0, 1]], [[2, 3]], [[0, 1], [2, 3]]):
+                    yield {"L": cells * CELL, "circ": circular, "protos": protos, "share": share}
+
+
 # ---------------------------------------------------------------------------------------------
 # sharding
 # ---------------------------------------------------------------------------------------------
@@ -310,7 +345,8 @@ def run_shard(shard: Dict[str, Any], run: Any) -> None:
                     return
                 _check_case(run, case)
             position += 1
-    for case in itertools.chain(_tie_cases(shard["tier"]), _same_extent_cases(shard["tier"])):
+    for case in itertools.chain(_tie_cases(shard["tier"]), _same_extent_cases(shard["tier"]),
+                                _bridge_cases(shard["tier"])):
         if position % shard["of"] == shard["index"]:
             if run.out_of_time():
                 return
